@@ -32,6 +32,7 @@ def run(ctx):
     ctx.rule('C11-R2', 'base64 validation: every symbol used in an output is tested >= 0x40 in the guard dominating the output; size & 3 rejected before the loop; pad in the 4th place only in the last block; only invalid_argument is thrown', 10)
     ctx.rule('C11-R3', 'rot13 evaluated for all 256 byte values: ASCII letters rotate by 13 within their case, every other byte is unchanged (hence an involution)', 256)
     ctx.rule('C11-R4', 'escape_url / escape_quotes / escape_controls evaluated for all 256 byte values (and flag values): output is a raw permitted byte or the escape that decodes to the byte; no raw quote / control / DEL', 1000)
+    ctx.rule('C11-R5', 'netloc: parse_netloc(render_netloc(host, port)) == (host, port), evaluated (E-TABLE) for colon-free hosts and every port 0..65535 in the thorough tier (boundary + strided ports in the quick tier)', 1)
     u = ctx.unit(repo_unit('Encoding.cc'))
     us = ctx.unit(repo_unit('Strings.cc'))
     I = TableEval(u)
@@ -256,7 +257,50 @@ def run(ctx):
             ok = em is not None and unescape_c(em) == b and (len(em) > 1 or raw_allowed)
             ctx.check(ok, R, 'escape_controls|non_ascii=%d|0x%02X' % (fl_, b), lp, '%r' % (em.decode('latin1') if em else None),
                       why_ or 'escape_controls(escape_non_ascii=%d) renders byte 0x%02X as %r: %s' % (fl_, b, em.decode('latin1') if em is not None else None, 'a raw control / DEL / quote / backslash byte is emitted' if em is not None and len(em) == 1 else 'the escape does not decode to the byte'), nontrivial=not raw_allowed)
-    ctx.note('R3 and R4 are exhaustive over the 256 byte values (x flag values) on the extracted chains. Not decided: render_netloc/parse_netloc round trip (a value question: stod-based port parsing).')
+    # ---------------- R5 netloc round trip, evaluated for every port (E-TABLE; the host only passes
+    # through find(':') / substr, so one colon-free host per length class stands for all of them)
+    R = 'C11-R5'
+    un = ctx.unit(repo_unit('Network.cc'))
+    rn = [f_ for f_ in un.func('phosg::render_netloc') if body_of(f_) is not None]
+    pn = [f_ for f_ in un.func('phosg::parse_netloc') if body_of(f_) is not None]
+    ctx.require(len(rn) == 1 and len(pn) == 1, 'render_netloc / parse_netloc not found')
+    ctx.fn('phosg::render_netloc')
+    ctx.fn('phosg::parse_netloc')
+    from peval import PEval, Str as PStr, Undecided as PUnd, Fault as PFault, Thrown as PThrown
+    PN = PEval([un, us], max_depth=8)
+    ports = list(range(0, 65536)) if ctx.tier == 'thorough' else sorted(set([0, 1, 2, 9, 10, 11, 99, 100, 101, 255, 256, 999, 1000, 1001, 9999, 10000, 32767, 32768, 65534, 65535] + list(range(7, 65536, 251))))
+    hosts = [b'h', b'example.com']
+    n_ok = 0
+    first_bad = None
+    und = None
+    for host in hosts:
+        for port in ports:
+            try:
+                txt = PN.call_with(rn[0], [PStr(host), port])
+                got = PN.call_with(pn[0], [txt, 0])
+            except PThrown as e_:
+                first_bad = first_bad or (host, port, 'parse_netloc(render_netloc(...)) throws: %s' % e_, e_.node)
+                continue
+            except PFault as e_:
+                first_bad = first_bad or (host, port, 'evaluation faults: %s' % e_, None)
+                continue
+            except PUnd as e_:
+                und = str(e_)
+                break
+            ok_ = isinstance(got, tuple) and got[0] == 'pair' and isinstance(got[1], PStr) and bytes(got[1].b) == host and got[2] == port
+            if ok_:
+                n_ok += 1
+            else:
+                first_bad = first_bad or (host, port, 'it renders %r and parses back to %r' % (bytes(txt.b).decode('latin1') if isinstance(txt, PStr) else txt, (bytes(got[1].b).decode('latin1'), got[2]) if isinstance(got, tuple) and len(got) == 3 and isinstance(got[1], PStr) else got), None)
+        if und:
+            break
+    if und:
+        ctx.undecided(R, 'netloc|round-trip', pn[0], 'render_netloc / parse_netloc could not be evaluated (%s)' % und)
+    elif first_bad:
+        ctx.bad(R, 'netloc|round-trip', first_bad[3] or pn[0], 'netloc round trip fails for (%r, %d): %s' % (first_bad[0].decode(), first_bad[1], first_bad[2]))
+    else:
+        ctx.ok(R, 'netloc|round-trip', pn[0], 'parse_netloc(render_netloc(host, port)) == (host, port) for %d (host, port) pairs (%s ports)' % (n_ok, 'all 65536' if ctx.tier == 'thorough' else 'boundary and strided'))
+    ctx.note('R3 and R4 are exhaustive over the 256 byte values (x flag values) on the extracted chains. R5 evaluates the netloc round trip for every port in the thorough tier (boundary + strided ports in the quick tier).')
 
 
 def fold_per_byte(PE, f, b, extra, what, lit_arg=False):
